@@ -96,7 +96,10 @@ def shift_of(text):
         return SHIFTS[text]
     if text in PREFIXED_SHIFTS:
         return PREFIXED_SHIFTS[text]
-    return None
+    try:  # any plain decimal number is a mass shift
+        return float(text)
+    except ValueError:
+        return None
 
 
 def mass_of(text, mono=True):
